@@ -10,7 +10,7 @@ use std::f64::consts::PI;
 
 pub fn monitor() -> Monitor {
   Monitor { id: "C03",
-    rule: "cells: every cell of depths <= 5 (quick) / <= 8 (thorough), and for every deeper depth up to 29 the class sample (4 corners, border runs, second ring, centre of each of the 12 base cells) plus uniform cells; per cell: centre vs reference, hash(centre), 4 random interior offsets through sph_coo -> hash / hash_with_dxdy, the three vertex accessors, edge paths (n=1,3,8; both directions; 4 start vertices; side paths) and grids (n=1,4) nudged 1% toward the centre, bad cell numbers. positions: the hostile position set (seams, cap meridians, poles, borders +-ulps, negative / >2pi longitudes) x 30 depths through hash_with_dxdy. Non-trivial = cell on a base-cell border/corner or second ring (reference classification), or position in a special class / within 1e-9 cell of a border.",
+    rule: "cells: every cell of depths <= 5 (quick) / <= 8 (thorough), and for every deeper depth up to 29 the class sample (4 corners, border runs, second ring, centre of each of the 12 base cells) plus uniform cells; per cell: centre vs reference (on the sphere and in the projection plane: center_of_projected_cell in its documented range), hash(centre), 4 random interior offsets through sph_coo -> hash / hash_with_dxdy, the three vertex accessors, edge paths (n=1,3,8; both directions; 4 start vertices; side paths) and grids (n=1,4) nudged 1% toward the centre, bad cell numbers. positions: the hostile position set (seams, cap meridians, poles, borders +-ulps, negative / >2pi longitudes) x 30 depths through hash_with_dxdy and, by the same rule, hash_dxdy_v2 (its fallback on rare branches, public). Non-trivial = cell on a base-cell border/corner or second ring (reference classification), or position in a special class / within 1e-9 cell of a border.",
     assumptions: &["reference cell geometry (refm.rs) correct to 2e-15 in the plane", "hash (C01) is used as the point-location oracle for nudged points"],
     run, replay }
 }
@@ -61,6 +61,15 @@ pub fn judge_cell(ctx: &mut Ctx, layer: &'static Layer, depth: u8, h: u64, rng: 
   ctx.worst_max("center_vs_reference_rad", dc);
   if dc > 1e-13 { ctx.violation("center-differs-from-reference", cell("cell"), format!("got {:?} ref {:?} d={:e}", c, rc, dc)); }
   match catch(|| layer.hash(c.0, c.1)) { Ok(hh) => if hh != h { ctx.violation("hash(center)-not-the-cell", cell("cell"), format!("got {}", hh)); }, Err(p) => ctx.violation("hash(center)-panics", cell("cell"), p) }
+  // the same centre in the projection plane: documented range x in [0,8[, y in [-2,2]; equal to the reference (one image)
+  ctx.eval();
+  match catch(|| layer.center_of_projected_cell(h)) {
+    Err(p) => ctx.violation("center_of_projected_cell-panics", cell("cell"), p),
+    Ok((x, y)) => { let (rx, ry) = cell_center_proj(depth, h);
+      let dx = { let d = (x - rx).rem_euclid(8.0); d.min(8.0 - d) };
+      if !(x >= 0.0 && x < 8.0 && y >= -2.0 && y <= 2.0) { ctx.violation("center_of_projected_cell-out-of-documented-range", cell("cell"), format!("({}, {})", x, y)); }
+      else if dx > 4e-15 || (y - ry).abs() > 4e-15 { ctx.violation("center_of_projected_cell-differs-from-reference", cell("cell"), format!("got ({}, {}) ref ({}, {})", x, y, rx, ry)); } }
+  }
   // interior offsets
   for q in 0..4 {
     let (ox, oy) = if q == 0 { (0.5, 0.5) } else { (0.02 + 0.96 * rng.f(), 0.02 + 0.96 * rng.f()) };
@@ -200,12 +209,14 @@ pub fn judge_hwd(ctx: &mut Ctx, layer: &'static Layer, depth: u8, lon: f64, lat:
   ctx.eval();
   let ns = nside(depth) as f64;
   let nv0 = ctx.n_violations + ctx.known_hits.values().map(|v| v.0).sum::<u64>();
-  judge_hwd_inner(ctx, layer, depth, lon, lat, expect, ns, &mk);
+  judge_hwd_inner(ctx, layer, depth, lon, lat, expect, ns, &mk, false);
+  // hash_dxdy_v2 (public; the fallback of hash_with_dxdy on its rare branches) answers the same question: same rule
+  if lat.abs() <= PI / 2.0 { let mk2 = || mk().b("v2", true); judge_hwd_inner(ctx, layer, depth, lon, lat, expect, ns, &mk2, true); }
   let nv1 = ctx.n_violations + ctx.known_hits.values().map(|v| v.0).sum::<u64>();
   if nv1 > nv0 { ctx.bump(&format!("hwd-failing-calls[{}]", cls)); }
 }
-fn judge_hwd_inner(ctx: &mut Ctx, layer: &'static Layer, depth: u8, lon: f64, lat: f64, expect: Option<(u64, f64, f64)>, ns: f64, mk: &dyn Fn() -> Case) {
-  let (h, dx, dy) = match catch(|| layer.hash_with_dxdy(lon, lat)) { Ok(v) => v, Err(e) => { ctx.violation("hash_with_dxdy-panics-on-valid-position", mk(), e); return; } };
+fn judge_hwd_inner(ctx: &mut Ctx, layer: &'static Layer, depth: u8, lon: f64, lat: f64, expect: Option<(u64, f64, f64)>, ns: f64, mk: &dyn Fn() -> Case, v2: bool) {
+  let (h, dx, dy) = match catch(|| if v2 { layer.hash_dxdy_v2(lon, lat) } else { layer.hash_with_dxdy(lon, lat) }) { Ok(v) => v, Err(e) => { ctx.violation("hash_with_dxdy-panics-on-valid-position", mk(), e); return; } };
   if h >= n_hash(depth) { ctx.violation("hash_with_dxdy-cell-out-of-range", mk(), format!("h={}", h)); return; }
   let tol = plane_tol(lon) + 4e-16;
   let (ok, ex) = contains(depth, h, lon, lat, tol);
